@@ -101,6 +101,18 @@ var twoPaths = map[string]struct {
 			"zzT: tools { ... on Gizmo { stock twin { price } } ... on Hammer { heft } }"}},
 }
 
+// per fixture: queries over a list of an abstract type with fragments on two member types, where a non-null field of one
+// member type comes from another service, and that (service, lookup type)
+var mixedLists = map[string]struct {
+	q    []string
+	fail [2]string
+}{
+	"movies": {[]string{"query Op { things { __typename ... on Review { body stars } ... on Person { name films { title } } } }",
+		"query Op { things { ... on Person { films { id } nick } ... on Review { stars } } }"}, [2]string{"A", "Person"}},
+	"shared": {[]string{"query Op { tools { __typename ... on Hammer { heft } ... on Gizmo { stock price } } }",
+		"query Op { tools { label ... on Gizmo { stock } ... on Hammer { label heft } } }"}, [2]string{"B", "Gizmo"}},
+}
+
 func runProfile(cfg runCfg, prof string) error {
 	r := rand.New(rand.NewSource(cfg.seed))
 	sum := &summary{Property: strings.ToUpper(prof), Seed: cfg.seed, Features: map[string]int{}, CaseInputs: map[string]interface{}{}}
@@ -261,7 +273,20 @@ func runProfile(cfg runCfg, prof string) error {
 		// faults
 		env.world.faultFor = nil
 		var faults []faultSpec
-		if prof == "c05" || (prof == "c02" && r.Intn(3) > 0) || (prof == "c16" && r.Intn(2) == 0) {
+		var directed *[2]string // (service, lookup type) whose requests are to fail
+		if ml, ok := mixedLists[env.fx.Name]; ok && (prof == "c02" || prof == "c05") && !big && r.Intn(8) == 0 {
+			// an interface/union list holding several concrete types, with a non-null field of ONE member type supplied by
+			// another service, which fails: the null must be found whichever member comes first in the list
+			q, vars = ml.q[r.Intn(len(ml.q))], map[string]interface{}{}
+			doc, _ = loadQuery(env.gw.es.MergedSchema, q)
+			if doc == nil {
+				return fmt.Errorf("directed query does not validate: %s", q)
+			}
+			in["query"], in["variables"] = q, vars
+			directed = &ml.fail
+			sum.Features["mixed_abstract_list_with_failing_member_service"]++
+		}
+		if prof == "c05" || (prof == "c02" && r.Intn(3) > 0) || (prof == "c16" && r.Intn(2) == 0) || directed != nil {
 			// fault-free run first
 			run0, err := env.run(q, vars, hdr)
 			if err != nil {
@@ -313,6 +338,14 @@ func runProfile(cfg runCfg, prof string) error {
 					}
 				}
 			}
+			if directed != nil {
+				faults, opts.failing = nil, nil
+				for _, t := range targets {
+					if t[0] == directed[0] && t[1] == directed[1] {
+						faults = []faultSpec{{Svc: t[0], Target: t[1], Kind: faultKinds[r.Intn(5)]}}
+					}
+				}
+			}
 			if env == envReal && len(targets) > 0 {
 				if r.Intn(2) == 0 { // the connection carrying a root request dies after the request was read
 					for _, t := range targets {
@@ -358,7 +391,7 @@ func runProfile(cfg runCfg, prof string) error {
 			sum.Features["foreign_abstract_condition"]++
 		}
 		sum.CaseInputs[name] = in
-		if prof == "c15" && len(faults) == 0 {
+		if (prof == "c15" || prof == "c04") && len(faults) == 0 {
 			// the same document once more on the same gateway with other condition values: what is included is decided per
 			// request, nothing may be remembered from the first run
 			v2 := map[string]interface{}{}
@@ -521,6 +554,16 @@ func mutationOracle(env *e2eEnv, run *e2eRun, name string, faulty bool) []oracle
 		if n > 1 {
 			exact = false
 			detail = fmt.Sprintf("service %s received %d mutation requests", svc, n)
+		}
+	}
+	// whatever fails, every owner is SENT its mutation fields once: the root steps of a mutation do not wait for each other
+	// (a faulted request is sent too; only its effects are missing)
+	if len(run.Requests) > 0 {
+		for svc := range expected {
+			if mutReqs[svc] != 1 {
+				exact = false
+				detail = fmt.Sprintf("service %s received %d mutation requests for the fields it owns (%v)", svc, mutReqs[svc], expected[svc])
+			}
 		}
 	}
 	add("prop.c16.exactly_once", exact, detail)
